@@ -439,6 +439,34 @@ def run(ctx, chk):
                 chk.ok("C17.R3", f"{label}:range", f"{doc}  [{sa} ..= {ea}]")
             else:
                 chk.violation("C17.R3", label, f"range:{sa}..={ea}", f"{label} prints {sa} ..= {ea}; documented {doc} = {form[0]} ..= {form[1]}", where)
+        # the smallest documented range (one byte: `a -> a`, `a : 0`, `: 0`) is printed, not refused: the same abstract
+        # run restricted to that sub-case of the numerals must still construct the range and read memory
+        nums_ = sorted(a for a in I.atoms if a.startswith("num:"))
+        if nums_ and len(ranges) + len(excl) == 1:
+            if "->" in terms and len(nums_) == 2:
+                hints = {nums_[0]: (3, 3), nums_[1]: (3, 3)}
+                what = "a -> a"
+            elif len(nums_) == 2:
+                hints = {nums_[0]: (3, 3), nums_[1]: (0, 0)}
+                what = "a : 0"
+            else:
+                hints = {nums_[0]: (0, 0)}
+                what = ": 0"
+            try:
+                I1, st1, v1, r1 = run_production(ctx, "print", pnt, k, hints=hints)
+                rng1 = [e for e in I1.events if e.kind == "call" and ((e.fref.get("def") or "").endswith("RangeInclusive::<Idx>::new")
+                        or ((e.fref.get("inst") or "").startswith("<std::ops::Range<") and (e.fref.get("inst") or "").endswith("into_iter")))]
+                reads1 = [e for e in I1.events if e.kind == "assert" and e.akind == "BoundsCheck"]
+                if not rng1 and not reads1:
+                    chk.violation("C17.R3", label, "one-byte-range-refused",
+                                  f"{label}: with the numerals fixed to the one-byte range `{what}` the action never reaches the printing loop: the guard before the loop "
+                                  f"refuses a range whose first and last byte coincide, so the byte is not shown", where, f"print mem {what}")
+                elif rng1 and reads1:
+                    chk.ok("C17.R3", f"{label}:one-byte-range", f"`{what}` reaches the printing loop")
+                else:
+                    chk.undecided_("C17.R3", f"{label}:one-byte-range", "range constructed but no memory read seen (or the reverse) in the restricted run")
+            except Unsupported as ex:
+                chk.undecided_("C17.R3", f"{label}:one-byte-range", str(ex))
         # indices
         worst = {}
         for e in I.events:
